@@ -90,6 +90,21 @@ CHECKS = {
         design_ref="DESIGN.md section 3 C12, section 8.4n",
         technique="provenance with a units table (byte-valued vs character-valued sources) restricted to arithmetic combination; parent-dependence of derived positions; field-to-field mapping",
     ),
+    "C06": dict(
+        category="other",
+        text="Decides the codec and table coverage of the pass-1 fragment cache, the structural part the property singles out: starting at "
+             "FragmentPayload the rule follows what the derived Serialize impls really write (805 workspace types; #[serde(skip)] fields "
+             "fall out because they are not handed to the serializer) and demands that every single-integer *Id newtype so reached (TokenId, "
+             "TextId, StrId, PathId, SymbolId, DefinitionId) has hand-written Serialize and Deserialize impls in a fragment_codec module "
+             "that reach the window / rebase functions and read the window of their own kind; windows and rebases are built from one "
+             "kind's counters; each payload field is exported from one table module and restored into the same one, and every field is "
+             "consumed; every thread-local that parse + analyze_pass1 write (23) is read by capture and written by restore or is in a "
+             "four-entry exemption table (two are reported undecided); both codec sessions bracket exactly the postcard call, parser "
+             "outermost, and are closed on every path; an id outside its window and a serialisation error refuse the fragment. It does "
+             "not decide that the restored state equals a fresh analysis for every input.",
+        design_ref="DESIGN.md section 3 C06, section 8.4r",
+        technique="type-closure over ADT facts driven by the serializer calls of derived impls; who-must-reach on the call graph; field-to-table provenance agreement between capture and restore; thread-local effect coverage; must-pass-through session brackets",
+    ),
     "C09": dict(
         category="other",
         text="Decides the token and comment conservation of the formatter's tree walk, a structural necessary condition of 'formatting only "
